@@ -8,13 +8,15 @@ Section Cover.
 Variable s : obs.                 (* the state after the operation *)
 Variable pts : list pnt.
 Variable old_nv : nat.            (* vertices with index >= old_nv were created by the operation *)
+Variable allowed : list nat.      (* old vertices at which the operation may subdivide as well: the vertices of the chain it returns
+                                     (add_constraint_and_split: an intersection that rounds onto an existing vertex subdivides there) *)
 
 (* flagged out-neighbours of vertex u *)
 Definition flagged_out (u : nat) : list nat :=
   map (dest s) (filter (fun e => (org s e =? u) && flag s e) (seq 0 (nH s))).
 
-(* is there a chain of constraint edges from u to v whose interior vertices are new vertices, or old vertices lying
-   in the relative interior of the segment (pos a, pos b)?  depth-first search with a visited list and fuel *)
+(* is there a chain of constraint edges from u to v whose interior vertices are new vertices, allowed vertices, or old vertices
+   lying in the relative interior of the segment (pos a, pos b)?  depth-first search with a visited list and fuel *)
 Fixpoint cover_dfs (fuel : nat) (a b : pnt) (target : nat) (visited : list nat) (u : nat) : bool :=
   match fuel with
   | O => false
@@ -22,7 +24,7 @@ Fixpoint cover_dfs (fuel : nat) (a b : pnt) (target : nat) (visited : list nat) 
       (u =? target) ||
       existsb (fun w =>
                  negb (memb w visited) &&
-                 ((w =? target) || (old_nv <=? w) || strictly_between a b (pos pts w)) &&
+                 ((w =? target) || (old_nv <=? w) || memb w allowed || strictly_between a b (pos pts w)) &&
                  cover_dfs k a b target (w :: visited) w)
               (flagged_out u)
   end.
@@ -32,8 +34,10 @@ Definition covered (u v : nat) : bool :=
 End Cover.
 
 (* every constraint edge (u,v) of the old state is still covered in the new state (vertex indices are stable) *)
-Definition constraints_covered (p n : obs) (npts : list pnt) : bool :=
-  forallb (fun k => negb (flag p (2 * k)) || covered n npts (nV p) (org p (2 * k)) (dest p (2 * k))) (seq 0 (o_ne p)).
+Definition constraints_covered_via (allowed : list nat) (p n : obs) (npts : list pnt) : bool :=
+  forallb (fun k => negb (flag p (2 * k)) || covered n npts (nV p) allowed (org p (2 * k)) (dest p (2 * k))) (seq 0 (o_ne p)).
+(* refine subdivides at new vertices only *)
+Definition constraints_covered (p n : obs) (npts : list pnt) : bool := constraints_covered_via [] p n npts.
 
 (* with keep_constraint_edges: every old constraint edge is still an edge of the new state with the same end points, flagged *)
 Definition constraints_kept (p n : obs) : bool :=
